@@ -16,6 +16,7 @@ let kind_of = function
   | 11 -> C.KAssume | 12 -> C.KRawRead | _ -> failwith "kind"
 let rec take n l = if n = 0 then ([], l) else match l with x :: r -> let (a, b) = take (n - 1) r in (x :: a, b) | [] -> failwith "take"
 let () =
+  let tokens = ref [] in
   let name = ref "" and args = ref [] and blocks = ref [] and cur = ref 0 and ops = ref [] in
   let cblocks = ref [] and aops = ref [] and claimed = ref [] and defaults = ref [] in
   let close_ablock t = cblocks := (pos_of_int !cur, C.mk_ablock (List.rev !aops) t) :: !cblocks; aops := [] in
@@ -23,7 +24,8 @@ let () =
   (try while true do
     let l = input_line stdin in
     (try match words l with
-    | "F" :: n :: _ -> name := n; args := []; blocks := []; ops := []
+    | "F" :: n :: _ -> name := n; args := []; blocks := []; ops := []; tokens := []
+    | "K" :: _ :: rest -> tokens := List.map (fun s -> pos_of_int (int_of_string s)) rest
     | ["A"; v; _rc; opt] -> args := (pos_of_int (int_of_string v), b opt) :: !args
     | ["B"; n] -> cur := int_of_string n
     | "O" :: k :: d :: rc :: bor :: mn :: fl :: n :: rest ->
@@ -32,9 +34,13 @@ let () =
          | m :: rest2 ->
             let (st, rest3) = take (int_of_string m) rest2 in
             let owner = (match rest3 with o :: _ -> ov o | [] -> None) in
+            let rest4 = (match rest3 with _ :: r -> r | [] -> []) in
+            let (slots, rest5) = (match rest4 with k :: r -> take (int_of_string k) r | [] -> ([], [])) in
+            let (kills, _) = (match rest5 with k :: r -> take (int_of_string k) r | [] -> ([], [])) in
             let pl = List.map (fun s -> pos_of_int (int_of_string s)) in
             ops := { C.okind = kind_of (int_of_string k); C.odest = ov d; C.orc = b rc; C.oborrowed = b bor;
-                     C.omaynull = b mn; C.oflag = b fl; C.osrcs = pl srcs; C.ostolen = pl st; C.oowner = owner } :: !ops
+                     C.omaynull = b mn; C.oflag = b fl; C.osrcs = pl srcs; C.ostolen = pl st; C.oowner = owner;
+                     C.oslot = pl slots; C.okill = pl kills } :: !ops
          | [] -> failwith "op")
     | ["G"; l] -> close_block (C.TGoto (pos_of_int (int_of_string l)))
     | ["C"; k; neg; v; lt; lf] ->
@@ -43,7 +49,7 @@ let () =
     | ["R"; v; rc] -> close_block (C.TReturn (ov v, b rc))
     | ["U"] -> close_block C.TUnreachable
     | ["E"] ->
-        let f = C.mk_func (List.rev !blocks) (List.rev !args) in
+        let f = C.mk_func (List.rev !blocks) (List.rev !args) !tokens in
         let fuel = nat_of_int (60 * List.length !blocks + 200) in
         (match C.check_func f fuel with
          | C.Accept -> print_endline (!name ^ " A")
